@@ -28,6 +28,7 @@ import LinVerif.Lemmas.C09Kv
 import LinVerif.Lemmas.C09KvLookup
 import LinVerif.Lemmas.C09KvStale
 import LinVerif.Lemmas.C09Compact
+import LinVerif.Lemmas.C09SeriesStable
 import LinVerif.Lemmas.C09Hist
 import LinVerif.Lemmas.C09Blocks
 import LinVerif.Lemmas.C09Buf
@@ -1045,5 +1046,229 @@ example :
     let nd6 : Node := { r5.1 with lim := {} }
     (r1.2, r2.2, r3.2, r4.2, r5.2) = (.out (.id 0), .out (.id 1), .tooManyNamespaces, .out (.id 2), .tooManyMetrics) ∧
     r5.1.getMetric 97 0 2 = none ∧ r5.1.ns.mutEmpty = false ∧ (nd6.genMetricLim c 97 0 2).2 = .out (.id 3) := by decide
+
+/-! ## Round 12: the LRU sequence cache of `metricIndexDatabase` may evict / expire at any time
+
+`createSeriesID` answers `cache + 1` on a hit and `max(metric→series postings) + 1` (kv family ∪ mutable ∪
+immutable; 0 when empty) on a miss. The cache is an `expirable.LRU` (100000 entries, one hour): an entry can
+vanish between any two calls. `FOp.evictSeq shard m` is that event; since it is a constructor of `FOp`,
+`cover_reachable`, `series_sequence_above_dictionary`, `new_series_id_unused` and `flush_fault_verdict` above
+quantify over histories with evictions placed anywhere (between faulted flushes, crashes, reopen, …). -/
+
+/-- **whatever part of the sequence cache is gone when the call comes**: after any history (evictions
+included), drop the entries of any list of metrics from one shard's cache — the id the next new series of a
+metric gets is still larger than every id the series dictionary answers for that metric -/
+theorem series_ids_fresh_whatever_is_evicted (c : Cfg) (hc : c.seriesLimitFirst = true) (hp : c.prepareSwapsEmpty = true)
+    (ha : c.indexFlushAborts = true) (lim : Limits) (n : Nat) (ops : List FOp) (sh : Nat) (evicted : List Nat) (m ts i : Nat)
+    (h : (evicted.foldl Shard.evictSeq ((frun c [0, 1, 2, 3] { lim := lim, nShards := n } ops).shards sh)).series.lookup m ts = some i) :
+    i < (evicted.foldl Shard.evictSeq ((frun c [0, 1, 2, 3] { lim := lim, nShards := n } ops).shards sh)).createSeriesID m := by
+  have inv := cover_reachable c hc hp ha lim n ops sh
+  generalize (frun c [0, 1, 2, 3] { lim := lim, nShards := n } ops).shards sh = s at *
+  have key : ∀ (l : List Nat) (s : Shard), CoverInv s → CoverInv (l.foldl Shard.evictSeq s) := by
+    intro l
+    induction l with
+    | nil => intro s hs; exact hs
+    | cons a r ih => intro s hs; exact ih _ (coverInv_evictSeq hs a)
+  exact (key evicted s inv).new_id_unused h
+
+/-- an eviction is a history step like any other: the fault-placement theorem with an eviction spelled out
+in front of the call (the eviction of the very metric the new series belongs to) -/
+theorem new_series_id_unused_after_eviction (c : Cfg) (hc : c.seriesLimitFirst = true) (hp : c.prepareSwapsEmpty = true)
+    (ha : c.indexFlushAborts = true) (lim : Limits) (n : Nat) (ops : List FOp) (sh m ts ts' i : Nat) (tags : List (Nat × Nat))
+    (hold : ((frun c [0, 1, 2, 3] { lim := lim, nShards := n } (ops ++ [.evictSeq sh m])).shards sh).series.lookup m ts = some i)
+    (hnew : ((frun c [0, 1, 2, 3] { lim := lim, nShards := n } (ops ++ [.evictSeq sh m])).shards sh).series.lookup m ts' = none) :
+    ((frun c [0, 1, 2, 3] { lim := lim, nShards := n } (ops ++ [.evictSeq sh m])).genSeries c sh m ts' tags).2 ≠ .id i :=
+  new_series_id_unused c hc hp ha lim n (ops ++ [.evictSeq sh m]) sh m ts ts' i tags hold hnew
+
+/-- **the cache entry, while it is there, is the largest posting of its metric** — after every history
+(`GenSeriesID` puts the new id into the cache and into the mutable postings together, postings only move
+towards the disk, a crash empties the cache, an eviction only removes) -/
+theorem cache_tight_reachable (c : Cfg) (hc : c.seriesLimitFirst = true) (hp : c.prepareSwapsEmpty = true)
+    (ha : c.indexFlushAborts = true) (lim : Limits) (n : Nat) (ops : List FOp) (sh m v : Nat)
+    (h : ((frun c [0, 1, 2, 3] { lim := lim, nShards := n } ops).shards sh).seqCache m = some v) :
+    (m, v) ∈ ((frun c [0, 1, 2, 3] { lim := lim, nShards := n } ops).shards sh).minv.all ∧
+    ∀ i, (m, i) ∈ ((frun c [0, 1, 2, 3] { lim := lim, nShards := n } ops).shards sh).minv.all → i ≤ v :=
+  ⟨nodeTight_frun hc hp ha ops (nodeTight_init lim n) sh m v h,
+   (cover_reachable c hc hp ha lim n ops sh).cache m v h⟩
+
+/-- **an eviction does not even change the next id**: in the state after any history, the miss branch of
+`createSeriesID` (`max(kv family ∪ mutable ∪ immutable postings) + 1`) computes what the hit branch
+(`cache + 1`) computes — so whether and when the LRU drops an entry is not observable in the ids -/
+theorem eviction_keeps_next_series_id (c : Cfg) (hc : c.seriesLimitFirst = true) (hp : c.prepareSwapsEmpty = true)
+    (ha : c.indexFlushAborts = true) (lim : Limits) (n : Nat) (ops : List FOp) (sh m : Nat) :
+    (((frun c [0, 1, 2, 3] { lim := lim, nShards := n } ops).shards sh).evictSeq m).createSeriesID m =
+      ((frun c [0, 1, 2, 3] { lim := lim, nShards := n } ops).shards sh).createSeriesID m :=
+  evictSeq_same_next (cover_reachable c hc hp ha lim n ops sh) (nodeTight_frun hc hp ha ops (nodeTight_init lim n) sh) m
+
+/-- … and neither the answer of the next `GenSeriesID` of that metric, whatever tag set it is asked for: the
+history with the eviction in front of the call and the history without it answer alike -/
+theorem eviction_invisible_to_next_call (c : Cfg) (hc : c.seriesLimitFirst = true) (hp : c.prepareSwapsEmpty = true)
+    (ha : c.indexFlushAborts = true) (lim : Limits) (n : Nat) (ops : List FOp) (sh m ts : Nat) (tags : List (Nat × Nat)) :
+    ((fstep c [0, 1, 2, 3] (frun c [0, 1, 2, 3] { lim := lim, nShards := n } ops) (.evictSeq sh m)).genSeries c sh m ts tags).2 =
+      ((frun c [0, 1, 2, 3] { lim := lim, nShards := n } ops).genSeries c sh m ts tags).2 := by
+  have hsame := eviction_keeps_next_series_id c hc hp ha lim n ops sh m
+  generalize frun c [0, 1, 2, 3] { lim := lim, nShards := n } ops = nd at *
+  have e : (fstep c [0, 1, 2, 3] nd (.evictSeq sh m)).shards sh = (nd.shards sh).evictSeq m := by
+    simp [fstep, Node.setShard]
+  have hlim : (fstep c [0, 1, 2, 3] nd (.evictSeq sh m)).lim = nd.lim := rfl
+  have hser : ((nd.shards sh).evictSeq m).series = (nd.shards sh).series := rfl
+  unfold Node.genSeries
+  simp only [e, hlim, hser, hsame]
+  cases (nd.shards sh).series.lookup m ts with
+  | some i => rfl
+  | none =>
+    simp only []
+    split
+    · rfl
+    · split <;> rfl
+
+/-- non-vacuity: two series, PrepareFlush, a faulted flush (postings committed, dictionary still frozen), a
+third series, eviction of the metric's entry: the miss branch reads kv family ∪ mutable and answers 3; the
+state has a non-empty cache before the eviction, committed, and mutable postings -/
+example :
+    let c : Cfg := { seriesLimitFirst := true, prepareSwapsEmpty := true }
+    let ops : List FOp := [.op (.series 0 0 1 []), .op (.series 0 0 2 [(1, 1)]), .op (.indexPrepare 0), .indexFlushFault 0 1,
+      .op (.series 0 0 3 [])]
+    let nd := frun c [0, 1, 2, 3] {} ops
+    let nd' := frun c [0, 1, 2, 3] {} (ops ++ [.evictSeq 0 0])
+    (nd.shards 0).seqCache 0 = some 2 ∧ (nd'.shards 0).seqCache 0 = none ∧
+    (nd'.shards 0).minv.disk.length = 2 ∧ (nd'.shards 0).minv.cur.length = 1 ∧
+    (nd'.shards 0).createSeriesID 0 = 3 ∧ (nd'.genSeries c 0 0 4 []).2 = .id 3 ∧
+    (nd'.shards 0).series.lookup 0 3 = some 2 := by decide
+
+/-- **a series keeps its id for as long as the node runs, whatever happens in between**: after any history
+`pre` (crashes and reopen included) a caller is answered `i` for tag set `ts` of metric `m`; then any stretch
+`post` of history in which the node does not restart — get-or-create calls of every kind, PrepareFlush / Flush of
+both databases, failed metadata flushes, index flushes in which any step fails (retried or not), refused metric
+names, evictions from the LRU sequence cache — and every later caller for that tag set is answered `i`, and the
+call changes nothing. (`stable` above is this statement for histories of `Op`s; here the history may contain
+faulted index flushes, refusals and evictions.) -/
+theorem series_stable_over_fault_histories (c : Cfg) (hc : c.seriesLimitFirst = true) (hp : c.prepareSwapsEmpty = true)
+    (ha : c.indexFlushAborts = true) (lim : Limits) (n : Nat) (pre post : List FOp)
+    (hrun : ∀ op ∈ post, FOp.sameRun op = true) (sh m ts i : Nat) (tags tags' : List (Nat × Nat))
+    (h : ((frun c [0, 1, 2, 3] { lim := lim, nShards := n } pre).genSeries c sh m ts tags).2 = .id i) :
+    (frun c [0, 1, 2, 3] { lim := lim, nShards := n } (pre ++ .op (.series sh m ts tags) :: post)).genSeries c sh m ts tags' =
+      (frun c [0, 1, 2, 3] { lim := lim, nShards := n } (pre ++ .op (.series sh m ts tags) :: post), .id i) := by
+  have cov := cover_reachable c hc hp ha lim n (pre ++ [.op (.series sh m ts tags)])
+  have fl := nodeFlags_frun hc hp ha (pre ++ [.op (.series sh m ts tags)]) (nodeFlags_init lim n)
+  have hsplit : pre ++ .op (.series sh m ts tags) :: post = (pre ++ [.op (.series sh m ts tags)]) ++ post := by simp
+  rw [hsplit, frun_append]
+  have h1 : frun c [0, 1, 2, 3] { lim := lim, nShards := n } (pre ++ [.op (.series sh m ts tags)]) =
+      ((frun c [0, 1, 2, 3] { lim := lim, nShards := n } pre).genSeries c sh m ts tags).1 := by
+    rw [frun_append]; rfl
+  have hl : ((frun c [0, 1, 2, 3] { lim := lim, nShards := n } (pre ++ [.op (.series sh m ts tags)])).shards sh).series.lookup m ts = some i := by
+    rw [h1]; exact genSeries_id_lookup hc _ sh m ts tags i h
+  exact genSeries_of_lookup c _ sh m ts tags' i (lookup_frun hc hp ha post cov fl hrun sh m ts i hl)
+
+/-- non-vacuity of `series_stable_over_fault_histories`: the stretch contains a faulted flush, the retry round, an
+eviction, other series, and the series asked for again keeps id 1 (its entry has moved from the mutable table
+through the frozen one into the kv family meanwhile) -/
+example :
+    let c : Cfg := { seriesLimitFirst := true, prepareSwapsEmpty := true }
+    let pre : List FOp := [.op (.series 0 0 1 []), .op .reopen, .op (.series 0 0 1 [])]
+    let post : List FOp := [.op (.indexPrepare 0), .indexFlushFault 0 0, .op (.series 0 0 3 []), .evictSeq 0 0,
+      .op (.indexPrepare 0), .op (.indexFlush 0), .op (.series 0 0 4 [])]
+    (∀ op ∈ post, FOp.sameRun op = true) ∧
+    ((frun c [0, 1, 2, 3] {} pre).genSeries c 0 0 2 [(1, 1)]).2 = .id 1 ∧
+    ((frun c [0, 1, 2, 3] {} (pre ++ .op (.series 0 0 2 [(1, 1)]) :: post)).genSeries c 0 0 2 []).2 = .id 1 ∧
+    ((frun c [0, 1, 2, 3] {} (pre ++ .op (.series 0 0 2 [(1, 1)]) :: post)).shards 0).series.disk 0 2 = some 1 := by decide
+
+namespace Neg
+
+/-- why `series_stable_over_fault_histories` excludes restarts from `post`: a series that was never flushed is
+gone after a reopen, and the id it had goes to the next new series (this is what the property allows: "every name
+FOUND in the recovered dictionaries has the id it had before") -/
+theorem series_not_stable_across_restart :
+    let c : Cfg := { seriesLimitFirst := true, prepareSwapsEmpty := true }
+    let nd := frun c [0, 1, 2, 3] {} [.op (.series 0 0 1 []), .op .reopen]
+    (nd.genSeries c 0 0 2 []).2 = .id 0 ∧ ((nd.genSeries c 0 0 2 []).1.genSeries c 0 0 1 []).2 = .id 1 := by decide
+
+end Neg
+
+/-- **the miss branch reads all three tiers** (regenerated from `invertedIndex.getSeriesIDs` and
+`findSeriesIDsByKeyFromMem`): the memory tables — `ii.mutable`, then `ii.immutable` — and then the kv family's
+snapshot; `Shard.metricSeries`, which the model's `createSeriesID` takes the maximum of, is exactly the union of
+the three -/
+theorem posting_tiers_tie :
+    C09.invertedGetSeriesIDsCalls.filter (fun c => c = "ii.findSeriesIDsByKeyFromMem" ∨ c = "family.GetSnapshot" ∨ c = "snapshot.Load") =
+      ["ii.findSeriesIDsByKeyFromMem", "family.GetSnapshot", "snapshot.Load"] ∧
+    C09.invertedFindFromMemTiers = ["ii.mutable", "ii.immutable"] ∧
+    C09.invertedFindFromMemCalls.filter (fun c => c = "findSeriesIDs") = ["findSeriesIDs", "findSeriesIDs"] ∧
+    (∀ (sh : Shard) (m i : Nat), i ∈ sh.metricSeries m ↔
+      ((m, i) ∈ sh.minv.cur ∨ (m, i) ∈ sh.minv.frzList ∨ (m, i) ∈ sh.minv.disk)) := by
+  refine ⟨by decide, by decide, by decide, ?_⟩
+  intro sh m i
+  rw [← Layers.mem_all]
+  unfold Shard.metricSeries
+  constructor
+  · intro h
+    obtain ⟨⟨m', i'⟩, hf, rfl⟩ := List.mem_map.1 h
+    obtain ⟨hin, hm'⟩ := List.mem_filter.1 hf
+    have : m' = m := by simpa using hm'
+    subst this
+    exact hin
+  · intro h
+    exact List.mem_map.2 ⟨(m, i), List.mem_filter.2 ⟨h, by simp⟩, rfl⟩
+
+namespace Neg
+
+/-- why the miss branch must read ALL three tiers of the postings: a `createSeriesID` that, on a miss, looked
+at the kv family only (what it sees right after a reopen) would hand out the id of a series whose posting is
+still in memory. Stated on the model's state: after two series and an eviction, the committed postings are
+empty although the dictionary answers 1 for the second series. -/
+theorem eviction_disk_only_would_reuse :
+    let c : Cfg := { seriesLimitFirst := true, prepareSwapsEmpty := true }
+    let nd := frun c [0, 1, 2, 3] {} [.op (.series 0 0 1 []), .op (.series 0 0 2 []), .evictSeq 0 0]
+    (nd.shards 0).series.lookup 0 2 = some 1 ∧ (nd.shards 0).minv.disk = [] ∧ (nd.shards 0).createSeriesID 0 = 2 := by decide
+
+end Neg
+
+/-! ## Round 12 follow-up: a cached bucket released under a lock-free reader
+
+`NewIndexKVStore` gives the LRU bucket cache an eviction callback that calls `TrieBucket.Release` (the bucket's
+tries go back to a `sync.Pool`); `getOrCreateValue` calls `bucket.GetValue` on a cached bucket without any lock;
+`Flush` purges the cache. Witness case 28 of the harness runs the schedule on the real code. -/
+
+namespace Neg
+
+/-- one value `v = 7` under two tag keys (ids 0 and 1), flushed; a reader of (tag key 0, v) holds the cached
+bucket, a flush purges and releases it, the bucket of tag key 1 is loaded into the recycled trie: the reader
+answers 1 — the id of (tag key 1, v) — while every other caller of (tag key 0, v) is answered 0 -/
+theorem bucket_released_under_reader :
+    let c : Cfg := { currentCfg with kvCacheReleasesOnEvict := true }
+    let nd := run c {} [.tagValue 0 7, .tagValue 1 7, .metaPrepare, .metaFlush, .tagValue 0 9, .metaPrepare, .metaFlush]
+    (nd.bucketReleaseRace c 0 7 1).2 = .id 1 ∧ (nd.genTagValueID c 0 7).2 = .id 0 := by decide
+
+/-- the same schedule when nothing is released on eviction: the reader answers like everybody else -/
+theorem bucket_kept_under_reader :
+    let c : Cfg := { currentCfg with kvCacheReleasesOnEvict := false }
+    let nd := run c {} [.tagValue 0 7, .tagValue 1 7, .metaPrepare, .metaFlush, .tagValue 0 9, .metaPrepare, .metaFlush]
+    (nd.bucketReleaseRace c 0 7 1).2 = .id 0 := by decide
+
+end Neg
+
+/-- what holds for a bucket cache that releases on eviction / that does not -/
+def BucketReleaseVerdict : Bool → Prop
+  | true =>
+      let c : Cfg := { currentCfg with kvCacheReleasesOnEvict := true }
+      let nd := run c {} [.tagValue 0 7, .tagValue 1 7, .metaPrepare, .metaFlush, .tagValue 0 9, .metaPrepare, .metaFlush]
+      (nd.bucketReleaseRace c 0 7 1).2 = .id 1 ∧ (nd.genTagValueID c 0 7).2 = .id 0
+  | false => ∀ (c : Cfg), c.kvCacheReleasesOnEvict = false → ∀ (nd : Node) (tk v other : Nat),
+      nd.bucketReleaseRace c tk v other = nd.genTagValueID c tk v
+
+/-- **bucket_release_verdict**: decided for the eviction callback /repo's `NewIndexKVStore` has now (regenerated
+fact `kvNewStoreEvictCalls`) -/
+theorem bucket_release_verdict : BucketReleaseVerdict currentCfg.kvCacheReleasesOnEvict := by
+  cases h : currentCfg.kvCacheReleasesOnEvict with
+  | true => exact Neg.bucket_released_under_reader
+  | false =>
+    intro c hc nd tk v other
+    unfold Node.bucketReleaseRace
+    rw [hc]; rfl
+
+/-- the callback is read from the source: either it calls `value.Release` and nothing else, or there is none -/
+theorem bucket_release_tie :
+    (C09.kvNewStoreEvictCalls = ["value.Release"] ∧ currentCfg.kvCacheReleasesOnEvict = true) ∨
+    (C09.kvNewStoreEvictCalls = [] ∧ currentCfg.kvCacheReleasesOnEvict = false) := by decide
 
 end LinVerif.Props.C09
